@@ -7,9 +7,13 @@
 EXTENDS TypedToolDefs, Json
 
 (* the case sets *)
-InCases ==
-  {InCase("in", vr, "map", "none", ClassAt(ix), ArgsAt(ix)) : vr \in Variants, ix \in ArgIx}
-  \cup {InCase("in", vr, "map", "none", <<NonObjLab[i]>>, NonObjArgs[i]) : vr \in Variants, i \in DOMAIN NonObjArgs}
+\* the large product is kept as a sequence (a set of 10^5 deep records costs TLC a sort with deep comparisons)
+InSeq ==
+  LET q == SetToSeq(Variants \X ArgIx)
+      n == SetToSeq(Variants \X (DOMAIN NonObjArgs))
+  IN [i \in DOMAIN q |-> InCase("in", q[i][1], "map", "none", ClassAt(q[i][2]), ArgsAt(q[i][2]))]
+     \o [i \in DOMAIN n |-> InCase("in", n[i][1], "map", "none", <<NonObjLab[n[i][2]]>>, NonObjArgs[n[i][2]])]
+SomeIn(P(_)) == \E i \in DOMAIN InSeq : P(InSeq[i])
 XInCases ==
   UNION {{InCase("xin", NoVariant, id, "none", <<"value">>, x) : x \in XVals(id)} : id \in XIds}
 GoCaches(ty) == IF ty = "InC" THEN Caches ELSE {"none", "warm"}
@@ -44,26 +48,27 @@ OutCases ==
   \cup {OutCase("reflect", "rstr", ch, x, FALSE, ct) : x \in {JStr(""), JStr("a")}, ch \in WarmNone, ct \in BOOLEAN}
   \cup {OutCase("reflect", "rbool", ch, JBool(b), FALSE, ct) : b \in BOOLEAN, ch \in WarmNone, ct \in BOOLEAN}
 
-InAll == InCases \cup XInCases \cup RInCases \cup SInCases
+SmallIn == XInCases \cup RInCases \cup SInCases
+InAllSeq == InSeq \o SetToSeq(SmallIn)
 
 FailIn(c)  == IF HoldsIn(c, ExpectedIn(c)) THEN FALSE
               ELSE PrintT(<<"design-fail-in", c, ExpectedIn(c)>>)
 FailOut(c) == IF HoldsOut(c, ExpectedOut(c)) <=> ~Lead(c) THEN FALSE
               ELSE PrintT(<<"design-fail-out", c, ExpectedOut(c)>>)
-DesignIn  == \A c \in InAll : ~FailIn(c)
+DesignIn  == \A i \in DOMAIN InAllSeq : ~FailIn(InAllSeq[i])
 DesignOut == \A c \in OutCases : ~FailOut(c)
 
 (* vacuity witnesses *)
 Witnesses ==
-  /\ \A vr \in Variants : /\ \E c \in InCases : c.vr = vr /\ ValidIn(c)
-                          /\ \E c \in InCases : c.vr = vr /\ ~ValidIn(c) /\ IsObj(c.args)
+  /\ \A vr \in Variants : SomeIn(LAMBDA c : c.vr = vr /\ ValidIn(c))
+  /\ \A vr \in Variants : SomeIn(LAMBDA c : c.vr = vr /\ ~ValidIn(c) /\ IsObj(c.args))
   \* a default changes what a valid call's handler must see
-  /\ \E c \in InCases : ValidIn(c) /\ ~SameJ(WithDefaults(CaseInSchema(c), c.args), c.args)
+  /\ SomeIn(LAMBDA c : ValidIn(c) /\ ~SameJ(WithDefaults(CaseInSchema(c), c.args), c.args))
   \* a default is ignored on a required property
-  /\ \E c \in InCases : c.vr.nDef /\ c.vr.nReq /\ IsObj(c.args) /\ "n" \notin DOMAIN c.args[2] /\ ~ValidIn(c)
+  /\ SomeIn(LAMBDA c : c.vr.nDef /\ c.vr.nReq /\ IsObj(c.args) /\ "n" \notin DOMAIN c.args[2] /\ ~ValidIn(c))
   \* an absent optional object is materialised
-  /\ \E c \in InCases : ValidIn(c) /\ "opt" \notin DOMAIN c.args[2]
-                        /\ "opt" \in DOMAIN WithDefaults(CaseInSchema(c), c.args)[2]
+  /\ SomeIn(LAMBDA c : ValidIn(c) /\ "opt" \notin DOMAIN c.args[2]
+                          /\ "opt" \in DOMAIN WithDefaults(CaseInSchema(c), c.args)[2])
   /\ \A ty \in GoInTypes : /\ \E c \in RInCases : c.ty = ty /\ ValidIn(c)
                            /\ \E c \in RInCases : c.ty = ty /\ ~ValidIn(c)
   /\ \A sid \in OutSchemaIds : /\ \E c \in OutCases : c.sid = sid /\ OutOk(c)
@@ -116,15 +121,15 @@ InLine(c) == [kind |-> c.kind, vid |-> IF c.kind = "in" THEN VarId(c.vr) ELSE c.
 OutLine(c) == [kind |-> "out", sid |-> c.sid, okind |-> c.okind, cache |-> c.cache, out |-> c.out,
                nilform |-> c.nilform, content |-> c.content, valid |-> OutOk(c), lead |-> Lead(c)]
 
-Export == ndJsonSerialize("cases.ndjson", SchemaLines \o MapSeq(InAll, InLine) \o MapSeq(OutCases, OutLine))
+Export == ndJsonSerialize("cases.ndjson", SchemaLines \o [i \in DOMAIN InAllSeq |-> InLine(InAllSeq[i])] \o MapSeq(OutCases, OutLine))
 
 ASSUME DesignIn
 ASSUME DesignOut
 ASSUME Witnesses
-ASSUME PrintT(ToJson([incases |-> Cardinality(InCases), rincases |-> Cardinality(RInCases),
+ASSUME PrintT(ToJson([incases |-> Len(InSeq), rincases |-> Cardinality(RInCases),
                       xincases |-> Cardinality(XInCases), sincases |-> Cardinality(SInCases),
                       outcases |-> Cardinality(OutCases), leads |-> Cardinality({c \in OutCases : Lead(c)}),
-                      validin |-> Cardinality({c \in InAll : ValidIn(c)}),
+                      validin |-> Cardinality({i \in DOMAIN InAllSeq : ValidIn(InAllSeq[i])}),
                       outok |-> Cardinality({c \in OutCases : OutOk(c)})]))
 ASSUME Export
 =============================================================================
